@@ -101,6 +101,19 @@ where
     | .list [.atom k, v] => do pure (k, ← dval? v)
     | _ => none
 
+/-- canonical form of an input value shown in a callback event: object keys sorted (the
+    implementation side reads the value back from a Go map, which has no order) -/
+partial def canonVal : Val → Val
+  | .list xs => .list (xs.map canonVal)
+  | .obj kvs =>
+    let ins (kv : String × Val) : List (String × Val) → List (String × Val) := fun acc =>
+      let rec go : List (String × Val) → List (String × Val)
+        | [] => [kv]
+        | x :: rest => if kv.1 < x.1 then kv :: x :: rest else x :: go rest
+      go acc
+    .obj ((kvs.map fun (k, v) => (k, canonVal v)).foldl (fun acc kv => ins kv acc) [])
+  | v => v
+
 partial def dvalS : DVal → Sexp
   | .str s => node "s" [mkStr s]
   | .int k n => node "i" [nkindS k, mkInt n]
@@ -111,7 +124,7 @@ partial def dvalS : DVal → Sexp
   | .struct fs => node "st" (fs.map fun (k, v) => .list [.atom k, dvalS v])
   | .ptr none => node "p" []
   | .ptr (some x) => node "p" [dvalS x]
-  | .custom v => node "cu" [valS v]
+  | .custom v => node "cu" [valS (canonVal v)]
 
 /-! ## external-function oracle supplied with a case -/
 
@@ -269,6 +282,10 @@ def testParts? (o : Oracle) : Sexp → Option (Test × TOpts)
 
 def test? (o : Oracle) (s : Sexp) : Option Test := (testParts? o s).map (fun p => applyOpts p.1 p.2)
 
+/-- `strings.TrimSpace` -/
+def goTrim (s : String) : String :=
+  String.ofList ((s.toList.dropWhile isGoSpace).reverse.dropWhile isGoSpace).reverse
+
 /-- bump a value (the table PostTransform `inc`) -/
 def bump : DVal → DVal
   | .str s => .str (s ++ "!")
@@ -375,6 +392,36 @@ partial def schema? (o : Oracle) : Sexp → Option Schema
         pure (← key.str?, ({ goName, tags } : FieldMeta), ← schema? o s)
       | _ => none
     pure (.struct (fs.foldr (fun (k, fm, s) acc => Fields.cons k fm s acc) Fields.nil) tests posts)
+  | .list [.atom "pre", id, .list (.atom kind :: args), inner] => do
+    let id ← id.nat?
+    let inner ← schema? o inner
+    let nonNil : Val → Bool := fun v => match v with | .nil => false | _ => true
+    let isStr : Val → Bool := fun v => match v with | .str _ => true | _ => false
+    let mk (accept : Val → Bool) (run : Val → Val × Option PostErr) (runD : DVal → DVal × Option String) : Schema :=
+      .pre { id, accept, run, runD } inner
+    match kind, args with
+    | "idany", [] => pure (mk nonNil (fun v => (v, none)) (fun d => (d, none)))
+    | "fail", [] => pure (mk nonNil (fun v => (v, some .plain)) (fun d => (d, none)))
+    | "failissue", [code, path, dtype, msg] => do
+      let i : Issue := { code := ← code.str?, path := ← path.str?, dtype := ← dtype.str?, params := [], message := ← msg.str? }
+      pure (mk nonNil (fun v => (v, some (.issue i))) (fun d => (d, none)))
+    | "atoi", [] =>
+      pure (mk isStr (fun v => match v with
+        | .str s => (match atoi s with
+          | some n => (.int .int n, none)
+          | none => (v, some .plain))
+        | _ => (v, some .plain)) (fun d => (d, none)))
+    | "trim", [] =>
+      pure (mk isStr (fun v => match v with
+        | .str s => (.str (goTrim s), none)
+        | _ => (v, none)) (fun d => (d, none)))
+    | "mismatch", [] => pure (mk (fun _ => false) (fun v => (v, none)) (fun d => (d, none)))
+    | "vid", [] => pure (mk (fun _ => false) (fun v => (v, none)) (fun d => (d, none)))
+    | "vinc", [] => pure (mk (fun _ => false) (fun v => (v, none)) (fun d => (bump d, none)))
+    | "vfail", [msg] => do
+      let msg ← msg.str?
+      pure (mk (fun _ => false) (fun v => (v, none)) (fun d => (d, some msg)))
+    | _, _ => none
   | .list [.atom "custom", .atom ck, t] => do
     let t ← test? o t
     let accept : Val → Option DVal := match ck with
